@@ -85,16 +85,35 @@ def run(repo, rep):
     g = [n for n in ast.walk(f) if isinstance(n, ast.If) and any(isinstance(s, ast.Return) and norm(s.value) == "(0, 16)" for s in n.body)]
     rep.check(len(g) == 1 and norm(g[0].test) in ("not 0 <= shift < 1 << 6", "not (0 <= shift < 1 << 6)", "not 0 <= shift < 64", "shift < 0 or shift >= 1 << 6", "shift < 0 or shift >= 64"), "C09-a", site,
               "guard accepts exactly 0 <= shift < 64", norm(g[0].test) if g else "")
-    # reduced form
+    # reduced form: interpreted with quantise_scale replaced by chosen (multiplier, shift) pairs, against its definition:
+    # (min(32767, round(multiplier / 2^16)), shift - 16) when that shift is a legal 6-bit shift, else the degraded (0, 16)
     site = f"{SC}:reduced_quantise_scale"
-    rq = sc.func("reduced_quantise_scale")
-    d = {norm(s.targets[0]): s.value for s in rq.body if isinstance(s, ast.Assign)}
-    rm = d.get("reduced_multiplier")
-    ok = isinstance(rm, ast.IfExp) and norm(rm.orelse) == "32767" and norm(rm.body) == "int(multiplier + (1 << 15) >> 16)" and norm(rm.test) == "multiplier < 32767 << 16"
-    rep.check(ok, "C09-a", site, "reduced multiplier = round(multiplier / 2^16), saturated at 32767", norm(rm) if rm is not None else "")
-    rep.check(norm(d.get("reduced_shift")) == "shift - 16", "C09-a", site, "reduced shift = shift - 16 (same 2^16 as the multiplier)", norm(d.get("reduced_shift")))
-    g = [n for n in ast.walk(rq) if isinstance(n, ast.If) and any(isinstance(s, ast.Return) and norm(s.value) == "(0, 16)" for s in n.body)]
-    rep.check(len(g) == 1, "C09-a", site, "out-of-range shift degrades to (0, 16)", "")
+    cur = {}
+
+    def qs_ext(interp, args, kwargs, node):
+        return cur["pair"]
+
+    it_r = Interp(repo, sc, externs={"quantise_scale": qs_ext})
+    wrong = []
+    npr = 0
+    for mult in (1 << 30, (1 << 30) + 1, (1 << 30) + (1 << 15) - 1, (1 << 30) + (1 << 15), (32767 << 16) - (1 << 15) - 1, (32767 << 16) - (1 << 15), (32767 << 16) - 1, 32767 << 16, (1 << 31) - 1, 1 << 31):
+        for shift in (0, 1, 15, 16, 17, 31, 62, 63):
+            cur["pair"] = (mult, shift)
+            ps_ = list(it_r.run("reduced_quantise_scale", lambda: ([Unknown("scale")], {})))
+            if len(ps_) != 1 or ps_[0].kind != "return" or not isinstance(ps_[0].value, tuple) or not all(isinstance(x, int) for x in ps_[0].value):
+                raise AnalysisError(f"reduced_quantise_scale not evaluable for quantise_scale -> {(mult, shift)}: {[(p_.kind, p_.value) for p_ in ps_][:2]}")
+            want = (min(32767, (mult + (1 << 15)) >> 16), shift - 16) if 0 <= shift - 16 < 64 else (0, 16)
+            npr += 1
+            if tuple(ps_[0].value) != want:
+                wrong.append(((mult, shift), tuple(ps_[0].value), want))
+    cur["pair"] = (0, 16)
+    ps_ = list(it_r.run("reduced_quantise_scale", lambda: ([Unknown("scale")], {})))
+    if not (len(ps_) == 1 and ps_[0].kind == "return" and tuple(ps_[0].value)[0] == 0):
+        wrong.append(((0, 16), ps_[0].value if ps_ else None, (0, 16)))
+    rep.check(not wrong, "C09-a", site, f"reduced form = (min(32767, round(multiplier / 2^16)), shift - 16) with a legal 6-bit shift, else (0, 16), on {npr + 1} (multiplier, shift) probes",
+              "; ".join(f"quantise_scale -> {a_}: returns {g_}, expected {w_}" for a_, g_, w_ in wrong[:3]) + (f" (+{len(wrong) - 3} more)" if len(wrong) > 3 else ""))
+    cs_ = [c_ for c_ in calls_in(sc.func("reduced_quantise_scale")) if call_name(c_) == "quantise_scale"]
+    rep.check(len(cs_) == 1 and norm(cs_[0].args[0]) == "scale", "C09-a", site, "the reduced form is derived from quantise_scale(scale)", "")
     # pooling divisor: scale * n >= 2^shift for every window size (finite domain; own evaluator on the extracted expressions)
     site = f"{SC}:quantise_pooling_scale"
     qp = sc.func("quantise_pooling_scale")
